@@ -229,9 +229,10 @@ func (Sim) Run(raw json.RawMessage, prop string, keep bool) (res simfw.Result) {
 	st.Budget = 64 + 16*(1+nrefs)*(1+len(s.Files))
 
 	// ---- run the loader ------------------------------------------------------
-	delivered := map[string]bool{} // locations whose references are known to the loader so far
-	readSoFar := map[string]bool{} // locations the loader has asked for so far in this run
-	okRead := map[string]bool{}    // locations read successfully so far in this run (a later load may legitimately reuse that content)
+	delivered := map[string]bool{}      // locations whose references are known to the loader so far
+	readSoFar := map[string]bool{}      // locations the loader has asked for so far in this run
+	okRead := map[string]bool{}         // locations read successfully so far in this run (a later load may legitimately reuse that content)
+	failedBefore := map[string]string{} // locations whose read failed in an earlier load of this run
 	mkLoader := func() *openapi3.Loader {
 		l := openapi3.NewLoader()
 		l.IsExternalRefsAllowed = s.External
@@ -386,6 +387,27 @@ func (Sim) Run(raw json.RawMessage, prop string, keep bool) (res simfw.Result) {
 				if lerr == nil {
 					res.Violate("C02", "unreadable-target", "C02/"+sig("load-succeeds-despite-unreadable-target"), fmt.Sprintf("reads of %v failed and never succeeded, yet loading returned no error", missing))
 				}
+			}
+			// the same loader loading the same root again: what could not be read before and has not been read
+			// since is as unreadable as it was (the earlier load asked for it, so this one needs it too, the
+			// stored content being the same)
+			var still []string
+			for l, f := range failedBefore {
+				if !okRead[l] && failedRead[l] == "" {
+					still = append(still, l+"("+f+")")
+				}
+			}
+			sort.Strings(still)
+			if li > 0 && len(still) > 0 && st.Fired["changed"] == 0 {
+				res.Probe("reload-after-unreadable-target")
+				if lerr == nil {
+					res.Violate("C02", "unreadable-target", "C02/"+sig("reload-succeeds-despite-unreadable-target"), fmt.Sprintf("an earlier load by this loader failed because reads of %v failed; they have not succeeded since (this load did not even try), yet loading the same root again returned no error", still))
+				}
+			}
+		}
+		for l, f := range failedRead {
+			if _, seen := failedBefore[l]; !seen {
+				failedBefore[l] = f
 			}
 		}
 		// ---- C02 clause: a fragment the target document lacks makes the load fail ----
